@@ -36,6 +36,37 @@ def adm_prop(stream, nq, nt, text, extra_streams=None, partial="", assumptions=N
         d["partial"] = partial
     return d
 
+POD_NOTE = "Trusted: Coq kernel; Model/Checks.v, Model/Registry.v (models of policy/check_*.go and registry.go; correspondence on generated pods compares allow bits per revision and per (level, version)); Spec/PSS.v as transcription of the Pod Security Standards; harness alpha encoding (checked against gamma by the frame check). Check table and allow-lists are regenerated from the source each run (hook H1 + reflection) and enter the theorems only through computed side conditions. No axioms."
+
+PROPS["C02"] = {
+    "streams": [{"name": "c02", "n_quick": 1200, "n_thorough": 30000}],
+    "level_text": "C02_revisions: each of the 25 registered revision functions decides exactly its row of the standard (Spec/PSS.v), for all pods and any allow-lists equal as sets to the standard's. C02_standard(_generic): for ANY table whose resolution at every published minor names the standard's revisions (computed side condition on the regenerated table) and every API-valid pod, every level and every version v1.0..latest and beyond, the evaluator's verdict equals PSS.compliant; C02_hypotheses_needed shows the validity/relaxation hypotheses are forced. The implementation is compared with the standard itself (P02) and with the model on an enumeration of single-field edits x {pod, init, container, ephemeral} plus random pods at every boundary version; the frame clause (unrelated fields never change a verdict) is checked by gamma(alpha(pod)) on pods with junk in unmodelled fields.",
+    "level_note": POD_NOTE,
+    "assumptions": ["API-valid pods: one source per volume; no capabilities/seccompProfile on os=windows pods", "R4: seccomp container annotation keys range over the pod's container names"],
+}
+PROPS["C03"] = {
+    "streams": [{"name": "c03", "n_quick": 1200, "n_thorough": 30000}],
+    "level_text": "C03_generic: in any well-formed table where each overriding restricted revision implies (on valid pods) the baseline revision it replaces, restricted-allowed implies baseline-allowed; C03_levels_ordered: the shipped instance for every version and switch setting (override pairs of the regenerated table checked by computation against the five proved implication lemmas); C03_privileged; C03_relaxation_safe; C03_hypotheses_needed (two-source volume). On the implementation, P03 is evaluated on every generated pod at every boundary version.",
+    "level_note": POD_NOTE,
+    "assumptions": ["API-valid pods (one source per volume; Linux-only fields unset on os=windows)"],
+}
+PROPS["C20"] = {
+    "streams": [{"name": "c20", "n_quick": 0, "n_thorough": 0}],
+    "level_text": "Finite domain, proved by computation with the bound in the statement: for every file under test/testdata (regenerated into Gen/Fixtures.v each run), once volume defaulting is applied, pass fixtures are allowed and fail fixtures are denied by the control they are named for or by one overriding it (C20_fixtures); the clause is not vacuous (C20_needs_defaulting); serialized files and in-memory generators (hook H4) give the same abstract pods (C20_same_pods); every control in force at every level x minor has a fail fixture (C20_complete). The real evaluator and every control in force are also run on all fixtures (exhaustive) and P20 evaluated on the results.",
+    "level_note": POD_NOTE + " API-server defaulting (empty volume source -> emptyDir) is modelled in Spec/P20.v; byte-level YAML equality is the repository's own TestFixtures.",
+    "assumptions": ["strict YAML decoding by sigs.k8s.io/yaml"],
+}
+PROPS["C01"] = adm_prop("c01", 1500, 40000, "C01_verdict: for every configuration, request, oracle world and every evaluator that allows at privileged (true of any registry: C03_privileged), a non-exempt pod CREATE or significant UPDATE is allowed iff the evaluator allows the pod at the enforce level:version the labels and defaults resolve to (spec-side resolution); denials are 403 Forbidden naming level:version; the enforce-policy annotation names the level (and below privileged the version). C01_verdict_needs_hyp documents why the evaluator hypothesis is needed (fully-privileged short circuit).")
+PROPS["C06"] = adm_prop("c06", 1500, 40000, "C06_exact: an exemption test is true iff the value is non-empty and Leibniz-equal to a list entry; C06_exemptions (P06): an exempt marking names a matching dimension, is allowed, unevaluated and counted once; whenever the request would have been evaluated without exemptions it is marked; when no dimension matches exactly the response equals the one with all exemption lists emptied; C06_dryrun: dry runs evaluate exactly the non-exempt-runtime-class pods. The implementation is run twice per case (with and without exemptions) on hits and near-misses (prefix, case change, cross-list, empty).")
+PROPS["C07"] = adm_prop("c07", 1500, 40000, "C07_faults (P07) for every oracle answer: pod requests fail closed at every call site (500 on lookup failure, 400 on decode/wrong type/nil for object and old object) and are allowed only if ignored, exempt, fully privileged with valid labels, insignificant, or evaluated and compliant; controller requests fail open with an error annotation and one fatal error metric; namespace decode failures deny, list failure and expiry never block; malformed labels never skip evaluation and are flagged. F4 (nil object panics the controller path) was found by this check and repaired (fix: commit).")
+PROPS["C08"] = adm_prop("c08", 1500, 40000, "C08_audit_warn (P08) for an arbitrary evaluator: the allow bit is the enforce verdict alone; an allowed request carries the warn warning iff the object violates warn; audit-violations is present iff it violates audit, allowed or denied; each names its own level:version; cache soundness (every cached lookup equals the evaluator on that key) for all coinciding and partially coinciding triples.")
+PROPS["C09"] = adm_prop("c09", 1200, 30000, "C09_never_denied for all faults; C09_controllers (P09): enforce is never applied (no enforce metric, no enforce-policy annotation), no findings without template or on subresources, and warnings/audit-violations equal those of the bare pod of the same template under the same audit/warn policy. All nine Go types are exercised (CronJob nesting, optional ReplicationController template, Pod under a controller resource).")
+PROPS["C10"] = adm_prop("c10", 1500, 40000, "C10_significance_characterised, C10_insignificant_allowed (allowed, unevaluated, whatever the policy), C10_updates_and_subresources (P10): significant updates answer like the CREATE, any subresource outside the 8 ignored names answers like no subresource; the 8 ignored ones are allowed with an empty trace.")
+PROPS["C11"] = adm_prop("c11", 1500, 40000, "C11_namespace (P11): create rejected (422, one cause per bad label) iff labels invalid; update iff new labels invalid and not invalid in the same way before; never rejected because of pods; the lister is called exactly when the dry run is required; the warnings equal the specification's report (one line per distinct violation text with least pod name and exact count, sorted); C11_order_independent; C11_counts_add_up. The clause 'one line per distinct set of violated controls' is evaluated separately (stream c11cs) and is a KNOWN FINDING (F3).",
+    extra_streams=[{"name": "c11cs", "n_quick": 500, "n_thorough": 10000}])
+PROPS["C12"] = adm_prop("c12", 1500, 40000, "C12_dry_run (P12) for any cap, timeout, population, ownership pattern and expiry index: at most cap evaluations, in the prioritised order (one pod per controller before siblings: C12_prioritise), the truncation line says exactly k of n, and the report is exactly that of the pods checked (C12_warnings_exact); C12_deadline: the lister's deadline is min(request deadline, now + min(timeout, remaining/2)). Real cap 3000/1s and small caps via hook H3; the deadline seen by the lister is checked on the Go side against a scheduling-proof interval.",
+    partial="that the Go runtime fires the timer and stops within one second of wall time is not expressible in the model; proved: deadline arithmetic and that the loop stops at the first observation of expiry")
+
 # properties not yet claimed (kept current as checks are added)
 NOT_APPLICABLE = [
     {"property_id": p, "reason": "check under construction in this session: model/theorems not yet committed (see DESIGN.md section 7 for the planned statement)"}
